@@ -23,7 +23,7 @@ def run(ctx):
         "codec: dec (enc x) = x (property C16); the harness decompresses with the library codec",
         "Conn read path: exact comparison (null vs empty told apart since /repo 4db07b4; control batches passed over since 314fa1c)",
         "writers never set the timestamp-type bit (hypothesis logAppend attrs = false of the writer theorems); brokers may: the fetch generator sets it",
-        "message format 1 with headers given: known finding C05-D32 (dropped without an error); otherwise headers are generated for format 2 only",
+        "message format 1 with headers given must be refused (op v1hdr; C05-D32 fixed in /repo a7712d5); otherwise headers are generated for format 2 only",
         "v0 wrappers (compressed magic 0) not generated (outside the property); empty retained v2 batches (count 0) are generated since C02-D4/D14 are fixed",
     ]
     broken = []
